@@ -187,6 +187,18 @@ impl<Read: ReadHalf> ReadConnection<Read> {
     pub fn read_half(&self) -> &Read {
         &self.socket
     }
+
+    /// Verification hook: `(buffer address, buffer length, read_pos, msg_pos)`.
+    #[cfg(zlink_verif)]
+    #[doc(hidden)]
+    pub fn verif_state(&self) -> (usize, usize, usize, usize) {
+        (
+            self.buffer.as_ptr() as usize,
+            self.buffer.len(),
+            self.read_pos,
+            self.msg_pos,
+        )
+    }
 }
 
 #[cfg(test)]
